@@ -60,7 +60,12 @@ Definition nr_wellformed (pk : pubkey) (p : nrproof) (challenge response : optio
   is_some (nr_Cr p) && is_some (nr_Cu p) && negb (sacc_is_nil (nr_sacc p)) &&
   is_some (nr_resp p) && is_some challenge && is_some response &&
   is_some (nr_result p Sbeta) && is_some (nr_result p Sdelta) &&
-  is_some (nr_result p Sepsilon) && is_some (nr_result p Szeta).
+  is_some (nr_result p Sepsilon) && is_some (nr_result p Szeta) &&
+  (* Cr and Cu invertible modulo N (a commitment that is 0 modulo N makes its relations vacuous) *)
+  match nr_Cr p, nr_Cu p with
+  | Some cr, Some cu => (Z.gcd cr (pk_N pk) =? 1) && (Z.gcd cu (pk_N pk) =? 1)
+  | _, _ => false
+  end.
 
 (* proof.go:196 SetExpected *)
 Definition set_expected (pk : pubkey) (p : nrproof) (challenge : option Z) (response : option Z)
